@@ -10,7 +10,7 @@ import itertools
 import os
 
 from .explorer import Divergence, Outcome
-from .sched import Scheduler, SchedulerError
+from .sched import Scheduler, SchedulerError, Deadlock
 
 # files whose statements touch state shared between calls (class- and instance-level members of the algorithm models, keys, registries)
 OPCODE_FILES = ("rfc7517/models.py", "_keys.py", "rfc7515/model.py", "rfc7516/models.py", "rfc7518/jwe_algs.py", "rfc7518/jws_algs.py",
@@ -66,13 +66,15 @@ def pairs(ctx, menu, make_shared, judge, thorough=False, seam=None, warm=True, p
     bodies = [(lambda i=i: menu[i][1](shared)) for i in combo]
     if seam is not None:
         seam.install()
+    from .props.common import viol
     try:
         obs, sch = run_threads(ctx, bodies, seam=seam, opcode=opcode)
+    except Deadlock as e:
+        return Outcome(f"pre{ctx.cost}:DEADLOCK", [viol("two concurrent calls deadlock [thread schedule]", f"{names}: {e}; {ctx.cost} preemption(s)")], nontrivial=tuple(ctx.choices))
     finally:
         if seam is not None:
             seam.uninstall()
     vs = []
-    from .props.common import viol
     where = f"{ctx.cost} preemption(s), {sch.npoints} scheduling points, switches at {switches(sch.trace)[:6]}"
     for k, (n, o) in enumerate(zip(names, obs)):
         bad = judge(n, o, shared)
